@@ -328,16 +328,11 @@ impl std::str::FromStr for PackageListEntry {
             .parse()?;
         let mut extra = std::collections::HashMap::new();
         for part in parts {
-            let mut kv = part.split('=');
-            let k = kv
-                .next()
-                .ok_or_else(|| "Missing key".to_string())?
-                .to_string();
-            let v = kv
-                .next()
-                .ok_or_else(|| "Missing value".to_string())?
-                .to_string();
-            extra.insert(k, v);
+            // Only the first '=' separates key and value; the value may contain '='.
+            let (k, v) = part
+                .split_once('=')
+                .ok_or_else(|| "Missing value".to_string())?;
+            extra.insert(k.to_string(), v.to_string());
         }
         Ok(Self {
             package,
